@@ -1,4 +1,4 @@
-// Counterexample found by mirsym/z3 for property C21: `[0, 0 | 0] == [0 | 0]` is True but the terms are not structurally equal
+// Counterexample found by mirsym/z3 for property C21: `[0, 0] == [0 | 0]` is True but the terms are not structurally equal
 // Replay: /verif/check C21 --replay /verif/replay/cases/C21-eq_d2_lists_eq.rs
 use proto_vulcan::prelude::*;
 use std::collections::hash_map::DefaultHasher;
@@ -19,7 +19,7 @@ fn elems(t: &T) -> Vec<T> {
 #[test]
 fn replay() {
     let x: T = LTerm::var("x");
-    let a: T = lterm!([0, 0 | 0]);
+    let a: T = lterm!([0, 0]);
     let b: T = lterm!([0 | 0]);
     assert_eq!(a == b, false, "structural equality of {} and {}", a, b);
 }
